@@ -206,6 +206,9 @@ type BuildOpts struct {
 	Extra   []string // extra CLI args
 	PreRun  func(dir string) error
 	NoCache bool
+	// OSRelease: run WITHOUT $DISTRIBUTION, in a private mount namespace where this file is /etc/os-release
+	// (the host auto-detection of pkg/prebuild/os.go); cfg.Dist is then not used
+	OSRelease string
 }
 
 // RunPrebuild runs the real prebuild binary for cfg in a fresh directory whose
@@ -250,6 +253,16 @@ func (e *Env) RunPrebuild(cfg Cfg, o BuildOpts) *Build {
 	cmd := exec.Command(e.Prebuild, args...)
 	cmd.Dir = dir
 	cmd.Env = append(os.Environ(), "DISTRIBUTION="+cfg.Dist, "VERIF_TRACE="+b.Trace)
+	if o.OSRelease != "" {
+		cmd = exec.Command("unshare", append([]string{"-m", "sh", "-c", `mount --bind "$VERIF_OSR" /etc/os-release && exec "$0" "$@"`, e.Prebuild}, args...)...)
+		cmd.Dir = dir
+		cmd.Env = []string{"VERIF_TRACE=" + b.Trace, "VERIF_OSR=" + o.OSRelease}
+		for _, kv := range os.Environ() {
+			if !strings.HasPrefix(kv, "DISTRIBUTION=") {
+				cmd.Env = append(cmd.Env, kv)
+			}
+		}
+	}
 	if o.Listing {
 		cmd.Env = append(cmd.Env, "VERIF_LISTING=1")
 	}
